@@ -247,7 +247,7 @@ def _fields(v, pre=()):
 def degenerate_variants(valid):
     """Bodies of the VALID shape (decodable into the handler's input type, or differing from it in one
     field only) with degenerate values: every list field [], [""] and [null]; every string field "" (and,
-    where the API carries a number in a string, "0", "-1", a 24-digit number, "abc"); every number 0, -1,
+    where the API carries a number in a string, "0", "-1", a 24-digit number, "abc", "-4096", 2^62); every number 0, -1,
     2^63, -2^63; every boolean flipped; every field null; every field dropped; all fields null; the empty
     object; unknown extra fields. Deterministic, in a fixed order."""
     out = []
@@ -265,7 +265,8 @@ def degenerate_variants(valid):
         elif isinstance(x, str):
             vs += [""]
             if x.lstrip("-").isdigit():
-                vs += ["0", "-1", "9" * 24, "abc"]
+                # also values that pass a "multiple of the sector size" test: negative, and beyond any allocation
+                vs += ["0", "-1", "9" * 24, "abc", "-4096", str(1 << 62)]
             else:
                 vs += [" ", "/", "../" + x]
         elif isinstance(x, dict):
